@@ -481,7 +481,9 @@ func (c *ClientConn) SendUpstreamOpenRequest(ctx context.Context, req *message.U
 	if err != nil {
 		return nil, err
 	}
-	c.openUpstream(ctx, req.QoS, res.AssignedStreamID, res.AssignedStreamIDAlias)
+	if res.ResultCode == message.ResultCodeSucceeded {
+		c.openUpstream(ctx, req.QoS, res.AssignedStreamID, res.AssignedStreamIDAlias)
+	}
 
 	return res, nil
 }
@@ -501,7 +503,9 @@ func (c *ClientConn) SendUpstreamResumeRequest(ctx context.Context, req *message
 		return nil, err
 	}
 
-	c.openUpstream(ctx, qoS, req.StreamID, res.AssignedStreamIDAlias)
+	if res.ResultCode == message.ResultCodeSucceeded {
+		c.openUpstream(ctx, qoS, req.StreamID, res.AssignedStreamIDAlias)
+	}
 
 	return res, nil
 }
